@@ -301,7 +301,6 @@ extern int mpt_text_get(const MPT_STRUCT(text) *tx, MPT_STRUCT(property) *pr)
 		}
 	}
 	if ((type = elem[pos].type) < 0) {
-		int type = elem[pos].type;
 		if (type == -1) {
 			if ((type = mpt_color_typeid()) <= 0) {
 				return MPT_ERROR(BadOperation);
